@@ -271,7 +271,7 @@ OUTLINES = {
 }
 
 
-def random_project(rng, nspaces=None, with_geometry_walls=False, space_offsets=False, azimuths=None):
+def random_project(rng, nspaces=None, with_geometry_walls=False, space_offsets=False, azimuths=None, force_devices=False):
     """a closed, convertible project: 1-3 spaces on one or two floors, walls on every edge, floor and roof
     from the outline, windows, shades, bridges, schedules and conditions"""
     p = base_library()
@@ -304,6 +304,7 @@ def random_project(rng, nspaces=None, with_geometry_walls=False, space_offsets=F
         del p["perim"]
     nspaces = nspaces or rng.randint(1, 3)
     p["polygons"], p["floors"] = [], []
+    forced = []
     sid = 0
     for fi in range(rng.choice([1, 1, 2])):
         h = rng.choice([2.5, 3.0, 3.5])
@@ -343,6 +344,14 @@ def random_project(rng, nspaces=None, with_geometry_walls=False, space_offsets=F
                         v["lfin"] = {"a": r2(0.05, 0.3), "b": r2(0.31, 0.6), "h": r2(1.0, 2.0), "d": rng.choice([0, r2(0.2, 0.9)])}
                     if rng.random() < 0.5:
                         v["rfin"] = {"a": r2(0.05, 0.3), "b": r2(0.31, 0.6), "h": r2(1.0, 2.0), "d": r2(0.2, 0.9)}
+                    if "lfin" in v and v["lfin"]["d"] > 0 and rng.random() < 0.4:
+                        v["rfin"] = dict(v["lfin"])          # a symmetric pair of side fins
+                    if force_devices and not forced:
+                        # at least one window of the project with an overhang and a symmetric pair of side fins
+                        v["overhang"] = {"a": 0.1, "b": 0.5, "w": 2.0, "d": 0.6, "angle": 0}
+                        v["lfin"] = {"a": 0.15, "b": 0.35, "h": 1.5, "d": 0.4}
+                        v["rfin"] = dict(v["lfin"])
+                        forced.append(v["name"])
                     if rng.random() < 0.3:
                         v["coefs"] = [r2(0.1, 1.0), r2(0.1, 1.0), r2(0.1, 1.0), r2(0.1, 1.0)]
                     if rng.random() < 0.3:
